@@ -7,6 +7,11 @@ _NOTE = ("Trusted: Coq 8.16.1 kernel + vm_compute; the Go harness (generators, p
          "differential evaluation on generated inputs, not by proof; ")
 
 TEXT = {
+    "C18": {
+        "level": "Number decoding into every Go numeric type (per-width range checks, unsigned wholeness, float64 and float32 narrowing with subnormals and overflow, big.Int/big.Float) and re-encoding are modelled in Gallina on the bit-exact big.Float model. Theorems: an exact integer conversion yields that very number (all numbers), signed decoding succeeds only for whole in-range numbers and stores that number, every Go integer of every width round-trips. All boundary numbers x 14 targets are compared with the implementation; a reflect-based Go type family is round-tripped by the oracle.",
+        "note": _NOTE + "structs / slices / maps / pointers: oracle only (partial).",
+        "technique": "Coq proof over a Gallina model of gocty's numeric conversions + bit-exact correspondence by vm_compute + reflect-family round-trip oracle",
+    },
     "C19": {
         "level": "Walk, Transform, path steps, path-indexed marks, UnknownAsNull and PathSet are modelled in Gallina (PathSet as the generic bucket algorithm proved in C03). Theorems: path hash coherence for all paths, path sets over known keys are mathematical sets (membership, no duplicates, exactly the added paths), path composition, walk reports the root first and stops at null/unknown. Every generated value's full walk listing, path applications (valid and invalid), transforms, mark round trips and path-set histories are compared with the implementation and checked against independent enumerations.",
         "note": _NOTE + "enumeration / path-back / transform laws are oracle + correspondence, not yet theorems (partial).",
